@@ -285,6 +285,10 @@ func (c *FnCtx) execCall(x *ssa.Call, common *ssa.CallCommon, st *State, reach *
 		c.copyOut(st, temps)
 		return
 	}
+	if spec.NoFrame {
+		c.abort("call to %s, whose contract has no frame", spec.Name)
+		return
+	}
 	names := calleeParamNames(spec, fullSig, common.IsInvoke())
 	results := c.applyContract(spec, fullSig, names, args, st, reach, deferred)
 	c.copyOut(st, temps)
@@ -503,7 +507,7 @@ func (g *Gen) pureApp(spec *FuncSpec, sig *types.Signature, resultIdx int, args 
 // checkFrame: for every heap that changed and is not covered by a modifies clause, pre-existing
 // objects (non-negative references) are unchanged.
 func (c *FnCtx) checkFrame(st *State, reach Term, env *Env) {
-	if c.spec.Trusted {
+	if c.spec.Trusted || c.spec.NoFrame {
 		return
 	}
 	// collect modifies targets
